@@ -285,6 +285,19 @@ func init() {
 		for _, in := range []string{"<%# abc", "<% break( %>", "<% for (x) in ) { %>", "<%= {a: ) } %>", "<%= xs[)] %>", "<% break[1] %>", "<%= [1, )] %>", "a\\<", "\\<", "<%= {let: 1} %>", "<% if (true) { } else if (let) { } %>"} {
 			e.addParseCase("corpus", in)
 		}
+		// every byte value at every position where a token can start or end inside a tag (after the tag
+		// opener, after an operator, glued to an identifier or a number, before the closer, at the end of
+		// the input): a syntax error or a parse, whatever the byte
+		for b := 0; b < 256; b++ {
+			if !e.Thorough() && b > 0x20 && b < 0x7f && b%7 != 0 {
+				continue // printable ASCII is what the other generators are made of
+			}
+			c := string([]byte{byte(b)})
+			for _, in := range []string{"<%= " + c + " %>", "<%= 1 + " + c + " %>", "<%= name" + c + "%>", "<%= 7" + c + " %>", "<% " + c, "<%" + c + "%>", "<% let x" + c + " = 1 %>", "<%= f(" + c + ") %>",
+				"<%= [" + c + "] %>", "<%= if (" + c + ") { %>a<% } %>", "<%= x." + c + " %>", "<%= 1 " + c + c + " 2 %>"} {
+				e.addParseCase("byte", in)
+			}
+		}
 	})
 }
 
